@@ -4,7 +4,7 @@ Line-protocol driver for the C08 replication model.
   reset
   append <hex> | append -        leader WriteLog (`-` = empty message)
   step <a|b> <fault>             one partition.replica call for that follower; fault ∈ none cli getack reset connect send recv put
-  frestart <w> | flose <w> | fclose <w> | offline <w> | online <w> <fault> | steponl <w> <fault> | join <w>
+  frestart <w> | flose <w> | fclose <w> | offline <w> | online <w> <fault> | steponl <w> <fault> | steppre <w> <fault> | join <w>
   lsnap | lrestore <k> | lrestart | gc | expire
 
 Every line answers
@@ -93,6 +93,7 @@ def parseEv : List String → Option Ev
   | ["offline", w] => (parseWho w).map Ev.offline
   | ["online", w, f] => do let w ← parseWho w; let f ← parseFault f; some (.online w f)
   | ["steponl", w, f] => do let w ← parseWho w; let f ← parseFault f; some (.steponl w f)
+  | ["steppre", w, f] => do let w ← parseWho w; let f ← parseFault f; some (.steppre w f)
   | ["join", w] => (parseWho w).map Ev.join
   | ["gc"] => some .gc
   | ["expire"] => some .expire
